@@ -12,7 +12,12 @@
    component, engine shutdown, whether (and which) package hook was consulted and with which `restarts` argument.
 3. code -> spec: seeded random event sequences are executed on the real code WITHOUT consulting the spec, recorded as traces
    (event + observed projection) and validated in one TLC run against Restart_trace.tla, which re-uses the actions of
-   Restart.tla with all named deviations switched on (the code as built) and evaluates the C12 invariants on every logged state.
+   Restart.tla (each step may follow the demanded policy or a named deviation, so the code as built and a repaired code are both
+   explained) and evaluates the C12 predicates on every logged state.  A step no action explains, or a state in which a C12
+   predicate is false, is a violation.  Self-test: a corrupted log must be rejected at the corrupted step.
+
+Keys: the three named deviations of the spec have their own keys (DEV_KEY, genuine defects of /repo, see
+out/proposed_fixes/C12_*); every other mismatch is keyed by entry point, engine kind and class of the step.
 """
 import json
 import os
@@ -738,6 +743,10 @@ def run(tier):
     chk.assumptions += [
         "task launching (Engine.run, the restart thread of RepeatingEngine) is replaced by a counter; rx emissions are not delivered",
         "exits are injected through Engine._setExitReason / the ivars RepeatingEngine.exitReason reads",
+        "the restart hooks are real files in <instance>/hooks imported by the real machinery; they are told how to behave through an "
+        "environment variable and report their invocations to the harness module",
+        "ComponentSpecification.configuration is served from a per-run cache (the real property deep-copies the FlowIR on every access); "
+        "time.sleep in control.py is a no-op; MonitorExceptionTracker is a stub reporting the (un)stable system of the configuration",
         "configuration family instead of the full product of the options (see config_family); hook answers limited to the 17 classes of Restart.tla",
         "budgets above 3 and restartHookOn with Killed/Cancelled (rejected by FlowIR validation) are not explored"]
     return chk.finish()
